@@ -153,6 +153,29 @@ func c19One(c *Ctx, rng *lab.RNG, cs c19Case) {
 		}
 		r.Obs("json_round_trips", 1)
 		r.DistinctKey("%s/json/%d", pkey, fill())
+		// the unmarshalled filter is a filter like any other: Clear must empty it ...
+		if rng.Chance(0.5) {
+			bf3, err := z.JSONUnmarshal(data)
+			if err != nil {
+				fail("C19/json-error", err.Error())
+				return false
+			}
+			bf3.Clear()
+			for _, h := range probes() {
+				if bf3.Has(h) {
+					fail("C19/clear-not-empty", fmt.Sprintf("Has(%#x)=true right after Clear on a filter restored from JSON (added=%d)", h, len(addedList)))
+					return false
+				}
+			}
+			r.Obs("clears_of_restored_filters", 1)
+		}
+		// ... and the history may continue on it
+		if rng.Chance(0.5) {
+			bf = bf2
+			tr("continue on the unmarshalled filter")
+			r.Obs("continued_on_restored_filter", 1)
+			r.DistinctKey("%s/continue-on-restored/%d", pkey, fill())
+		}
 		return true
 	}
 	ok := true
